@@ -211,3 +211,10 @@ func isParamNamed(v ssa.Value, name string) bool {
 	}
 	return false
 }
+
+func derefType(t types.Type) types.Type {
+	if p, ok := t.Underlying().(*types.Pointer); ok {
+		return p.Elem()
+	}
+	return t
+}
